@@ -18,8 +18,8 @@ import numpy as np
 import impl
 
 MAX_SIZE = 160          # elements of any intermediate dense array
-MAX_RANK = 7            # the properties quantify over 0-d .. 5-d; beyond 8 axes `check_compressed_axes` rejects sorted
-                        # compressed_axes containing an axis >= 8 (set iteration order; reported, proposed_fixes/C05-compressed-axes-set-order)
+MAX_RANK = 10           # the properties quantify over 0-d .. 5-d; ranks up to 10 are kept in the stream because that is where
+                        # check_compressed_axes used to reject sorted axes containing an axis >= 8 (repaired: /repo cbb2544)
 MAX_ABS = 10 ** 6       # magnitude bound: keeps every run far from int64 overflow (the model is unbounded)
 
 F1 = {
